@@ -50,6 +50,16 @@ func crossLinked(m *rgen.Msg) *rgen.Msg {
 		td := tus[i].Trip
 		vps[i].Trip = &td
 	}
+	// trips still without a vehicle get the positions that have neither a descriptor nor a trip (vehicles without any identity
+	// can only be linked from their own entity)
+	k := min(len(tus), len(vps))
+	for i := range v.Entities {
+		if vp := v.Entities[i].VP; vp != nil && vp.Vehicle == nil && vp.Trip == nil && k < len(tus) {
+			td := tus[k].Trip
+			vp.Trip = &td
+			k++
+		}
+	}
 	return v
 }
 
